@@ -396,6 +396,12 @@ func (r *runner) monitorHop(h hop, o hopObs, liveBefore map[int]bool) {
 	}
 	switch h.K {
 	case "commit":
+		// a partition released by a commit (not by Close's forced release) is clean: the store has its latest mark
+		for p := range liveBefore {
+			if r.released[p] && r.touched[p] && r.store[p] != r.pend[p] {
+				r.fail("release:dirty-partition-released", fmt.Sprintf("p%d was released by a commit while the coordinator stores %+v and its latest mark is %+v", p, r.store[p], r.pend[p]))
+			}
+		}
 		// an accepted commit with nothing happening meanwhile leaves every live partition stored at its latest mark
 		if quiet(*h.Sc) && len(h.Between) == 0 && len(o.Reqs) <= 1 {
 			var blocks []blockObs
